@@ -16,13 +16,14 @@ Notation track_ok := (CompileBase.track_ok p).
 Notation caps_rel := (CompileBase.caps_rel p).
 
 Notation code_ex := (CompileDefs.code_ex p).
+Notation tbl_ok := (CompileDefs.tbl_ok p).
 Notation ok_node := (CompileDefs.ok_node e p).
 Notation ok_at := (CompileDefs.ok_at e p).
 
 (* ---------- leaves ---------- *)
 Lemma cc_char f k o c : ok_node (S f) (NChar k o c).
 Proof.
-  intros s res Hsem Hst a tbl T S C M Hc Hex Hk Hr.
+  intros s res Hsem Hst a tbl T S C M Hc Hex Hk Hr Htb.
   cbn [sem] in Hsem. injection Hsem as <-.
   cbn [emit fst csize] in *.
   apply has_code_cons in Hc. destruct Hc as [H0 Hc]. apply has_code_cons in Hc. destruct Hc as [H1 _].
@@ -34,7 +35,7 @@ Qed.
 
 Lemma cc_anchor f an : ok_node (S f) (NAnchor an).
 Proof.
-  intros s res Hsem Hst a tbl T S C M Hc Hex Hk Hr.
+  intros s res Hsem Hst a tbl T S C M Hc Hex Hk Hr Htb.
   cbn [sem] in Hsem. injection Hsem as <-.
   cbn [emit fst csize] in *.
   apply has_code_cons in Hc. destruct Hc as [H0 _].
@@ -50,7 +51,7 @@ Qed.
 
 Lemma cc_nothing f : ok_node (S f) NNothing.
 Proof.
-  intros s res Hsem Hst a tbl T S C M Hc Hex Hk Hr.
+  intros s res Hsem Hst a tbl T S C M Hc Hex Hk Hr Htb.
   cbn [sem] in Hsem. injection Hsem as <-.
   cbn [emit fst csize] in *.
   apply has_code_cons in Hc. destruct Hc as [H0 _].
@@ -59,14 +60,14 @@ Qed.
 
 Lemma cc_empty f : ok_node (S f) NEmpty.
 Proof.
-  intros s res Hsem Hst a tbl T S C M Hc Hex Hk Hr.
+  intros s res Hsem Hst a tbl T S C M Hc Hex Hk Hr Htb.
   cbn [sem] in Hsem. injection Hsem as <-.
   cbn [csize]. rewrite Z.add_0_r. apply leadsg_leaf; [exact Hk|exact Hr|apply rsteps_refl].
 Qed.
 
 Lemma cc_bump f : ok_node (S f) NBump.
 Proof.
-  intros s res Hsem Hst a tbl T S C M Hc Hex Hk Hr.
+  intros s res Hsem Hst a tbl T S C M Hc Hex Hk Hr Htb.
   cbn [sem] in Hsem. injection Hsem as <-.
   cbn [emit fst csize] in *.
   apply has_code_cons in Hc. destruct Hc as [H0 _]. destruct Hex as [w2 H2].
@@ -89,17 +90,18 @@ Lemma cc_concat_list f : ok_at f -> forall l,
   Forall (fun t => supported t = true) l -> Forall (groups_ok (capsize p)) l ->
   forall s res, seqf f l s = Ok res -> st_ok e s ->
   forall a tbl T S C M, has_code a (fst (emit_seq cfg0 l a tbl)) -> code_ex (a + csize_seq cfg0 l) ->
-    track_ok T -> caps_rel (caps s) M ->
+    track_ok T -> caps_rel (caps s) M -> tbl_ok (snd (emit_seq cfg0 l a tbl)) ->
     leadsg (a + csize_seq cfg0 l) T S S C M (mkr a 0 (pos s) T S C M) res.
 Proof.
-  intros Hok. induction l as [|x l IH]; intros Hsl Hgl s res Hsem Hst a tbl T S C M Hc Hex Hk Hr.
+  intros Hok. induction l as [|x l IH]; intros Hsl Hgl s res Hsem Hst a tbl T S C M Hc Hex Hk Hr Htb.
   - cbn [seqf] in Hsem. injection Hsem as <-. cbn [csize_seq]. rewrite Z.add_0_r.
     apply leadsg_leaf; [exact Hk|exact Hr|apply rsteps_refl].
   - inversion Hsl as [|? ? Hsx Hsl']; subst. inversion Hgl as [|? ? Hgx Hgl']; subst.
     cbn [seqf] in Hsem. apply sp_bindr_ok in Hsem. destruct Hsem as [la [Hla Hb]].
-    cbn [emit_seq] in Hc. pose proof (emit_length cfg0 x a tbl) as Lx.
-    destruct (emit cfg0 x a tbl) as [cx t1] eqn:Ex. cbn [fst] in Lx. rewrite Lx in Hc.
-    destruct (emit_seq cfg0 l (a + csize cfg0 x) t1) as [cr t2] eqn:Er. cbn [fst] in Hc.
+    cbn [emit_seq] in Hc, Htb. pose proof (emit_length cfg0 x a tbl) as Lx.
+    destruct (emit cfg0 x a tbl) as [cx t1] eqn:Ex. cbn [fst] in Lx. rewrite Lx in Hc, Htb.
+    pose proof (emit_seq_tbl_ext cfg0 l (proj2 (Forall_forall _ _) (fun t _ => emit_tbl_ext cfg0 t)) (a + csize cfg0 x) t1) as Hext.
+    destruct (emit_seq cfg0 l (a + csize cfg0 x) t1) as [cr t2] eqn:Er. cbn [fst snd] in Hc, Htb, Hext.
     apply has_code_app in Hc. destruct Hc as [Hcx Hcr]. rewrite Lx in Hcr.
     assert (Lr : zlen cr = csize_seq cfg0 l).
     { replace cr with (fst (emit_seq cfg0 l (a + csize cfg0 x) t1)) by (rewrite Er; reflexivity).
@@ -108,19 +110,21 @@ Proof.
     assert (Hexx : code_ex (a + csize cfg0 x)).
     { eapply cc_code_ex_start; [exact Hcr|]. rewrite Lr. exact Hex. }
     eapply leadsg_bindl with (m := a + csize cfg0 x) (Ss1 := S) (f := seqf f l); [|exact Hb|].
-    + apply (Hok x Hsx Hgx s la Hla Hst a tbl T S C M); [rewrite Ex; exact Hcx|exact Hexx|exact Hk|exact Hr].
+    + apply (Hok x Hsx Hgx s la Hla Hst a tbl T S C M); [rewrite Ex; exact Hcx|exact Hexx|exact Hk|exact Hr|].
+      rewrite Ex. cbn [snd]. eapply tbl_ok_ext; eassumption.
     + intros q rq T' C' M' Hin Hq Hcq Hu Hkq.
       apply IH with (tbl := t1); try assumption.
       * eapply cc_res_ok_in; eassumption.
       * rewrite Er. exact Hcr.
+      * rewrite Er. exact Htb.
 Qed.
 
 Lemma cc_concat f o l : ok_at f -> supported (NConcat o l) = true -> groups_ok (capsize p) (NConcat o l) ->
   ok_node (S f) (NConcat o l).
 Proof.
-  intros Hok Hs Hg s res Hsem Hst a tbl T S C M Hc Hex Hk Hr.
+  intros Hok Hs Hg s res Hsem Hst a tbl T S C M Hc Hex Hk Hr Htb.
   cbn [sem] in Hsem. change (seqf f l s = Ok res) in Hsem.
-  rewrite wr_emit_concat_eq in Hc. rewrite wr_csize_concat_eq in *.
+  rewrite wr_emit_concat_eq in Hc, Htb. rewrite wr_csize_concat_eq in *.
   eapply cc_concat_list; try eassumption.
   - apply cc_supported_list_forall. exact Hs.
   - apply cc_groups_list. destruct Hg as [_ Hg]. exact Hg.
@@ -138,10 +142,10 @@ Lemma cc_alt_list f lend : ok_at f -> forall l, l <> [] ->
   Forall (fun t => supported t = true) l -> Forall (groups_ok (capsize p)) l ->
   forall s res, altf f s l = Ok res -> st_ok e s ->
   forall a tbl T S C M, has_code a (fst (emit_alt cfg0 lend l a tbl)) -> lend = a + csize_alt cfg0 l ->
-    code_ex lend -> track_ok T -> caps_rel (caps s) M ->
+    code_ex lend -> track_ok T -> caps_rel (caps s) M -> tbl_ok (snd (emit_alt cfg0 lend l a tbl)) ->
     leadsg lend T S S C M (mkr a 0 (pos s) T S C M) res.
 Proof.
-  intros Hok. induction l as [|x l IH]; intros Hne Hsl Hgl s res Hsem Hst a tbl T S C M Hc Hl Hex Hk Hr;
+  intros Hok. induction l as [|x l IH]; intros Hne Hsl Hgl s res Hsem Hst a tbl T S C M Hc Hl Hex Hk Hr Htb;
     [congruence|].
   inversion Hsl as [|? ? Hsx Hsl']; subst l0 x0. inversion Hgl as [|? ? Hgx Hgl']; subst l0 x0.
   cbn [altf] in Hsem. apply sp_appr_ok in Hsem. destruct Hsem as (rx & ry & Hrx & Hry & ->).
@@ -149,10 +153,11 @@ Proof.
   - cbn [altf] in Hry. injection Hry as <-. rewrite app_nil_r.
     cbn [emit_alt csize_alt] in *. subst lend.
     apply (Hok x Hsx Hgx s rx Hrx Hst a tbl T S C M); assumption.
-  - rewrite wr_emit_alt_cons2 in Hc. rewrite wr_csize_alt_cons2 in Hl.
+  - rewrite wr_emit_alt_cons2 in Hc, Htb. rewrite wr_csize_alt_cons2 in Hl.
     pose proof (emit_length cfg0 x (a + 2) tbl) as Lx.
-    destruct (emit cfg0 x (a + 2) tbl) as [cx t1] eqn:Ex. cbn [fst] in Lx. cbv zeta in Hc.
-    destruct (emit_alt cfg0 lend (y :: l') (a + 2 + zlen cx + 2) t1) as [cr t2] eqn:Er. cbn [fst] in Hc.
+    destruct (emit cfg0 x (a + 2) tbl) as [cx t1] eqn:Ex. cbn [fst] in Lx. cbv zeta in Hc, Htb.
+    pose proof (emit_alt_tbl_ext cfg0 lend (y :: l') (proj2 (Forall_forall _ _) (fun t _ => emit_tbl_ext cfg0 t)) (a + 2 + zlen cx + 2) t1) as Hext.
+    destruct (emit_alt cfg0 lend (y :: l') (a + 2 + zlen cx + 2) t1) as [cr t2] eqn:Er. cbn [fst snd] in Hc, Htb, Hext.
     rewrite Lx in *.
     apply has_code_cons in Hc. destruct Hc as [H0 Hc]. apply has_code_cons in Hc. destruct Hc as [H1 Hc].
     replace (a + 1 + 1) with (a + 2) in Hc by lia.
@@ -174,6 +179,7 @@ Proof.
       * exists Goto. exact Hg0.
       * cbn [app]. eapply track_ok_cons. rewrite Z.abs_eq by lia. exact H0.
       * exact Hr.
+      * rewrite Ex. cbn [snd]. eapply tbl_ok_ext; eassumption.
     + intros np T' t HT. cbn [app] in HT. injection HT as <- <-.
       rewrite bkr_pos by exact Ha.
       eapply leadsg_pre.
@@ -190,14 +196,15 @@ Proof.
       * rewrite Er. exact Hcr.
       * lia.
       * exists wl. exact Hwl.
+      * rewrite Er. exact Htb.
 Qed.
 
 Lemma cc_alternate f o l : ok_at f -> supported (NAlternate o l) = true -> groups_ok (capsize p) (NAlternate o l) ->
   ok_node (S f) (NAlternate o l).
 Proof.
-  intros Hok Hs Hg s res Hsem Hst a tbl T S C M Hc Hex Hk Hr.
+  intros Hok Hs Hg s res Hsem Hst a tbl T S C M Hc Hex Hk Hr Htb.
   cbn [sem] in Hsem. change (altf f s l = Ok res) in Hsem.
-  rewrite wr_emit_alternate_eq in Hc.
+  rewrite wr_emit_alternate_eq in Hc, Htb.
   cbn [supported] in Hs. apply andb_prop in Hs. destruct Hs as [Hne Hs].
   eapply cc_alt_list; try eassumption.
   - destruct l; [discriminate|discriminate].
@@ -223,11 +230,11 @@ Qed.
 Lemma cc_capture f o g r : ok_node f r -> supported r = true -> 0 <= g < capsize p ->
   ok_node (S f) (NCapture o g (-1) r).
 Proof.
-  intros Hokr Hsr Hg s res Hsem Hst a tbl T S C M Hc Hex Hk Hr.
+  intros Hokr Hsr Hg s res Hsem Hst a tbl T S C M Hc Hex Hk Hr Htb.
   rewrite cc_sem_capture in Hsem. apply sp_bindr_ok in Hsem. destruct Hsem as [la [Hla Hb]].
-  rewrite cc_emit_capture in Hc by lia.
+  rewrite cc_emit_capture in Hc, Htb by lia.
   pose proof (emit_length cfg0 r (a + 1) tbl) as Lr.
-  destruct (emit cfg0 r (a + 1) tbl) as [cr t1] eqn:Er. cbn [fst] in Lr, Hc.
+  destruct (emit cfg0 r (a + 1) tbl) as [cr t1] eqn:Er. cbn [fst snd] in Lr, Hc, Htb.
   replace (csize cfg0 (NCapture o g (-1) r)) with (1 + csize cfg0 r + 3) in * by reflexivity.
   apply has_code_cons in Hc. destruct Hc as [H0 Hc].
   apply has_code_app in Hc. destruct Hc as [Hcr Hc]. rewrite Lr in Hc.
@@ -251,6 +258,7 @@ Proof.
       * exists Capturemark. exact Hm0.
       * eapply track_ok_cons. rewrite Z.abs_eq by lia. exact H0.
       * exact Hr.
+      * rewrite Er. exact Htb.
     + intros q rq T' C' M' Hin Hq Hcq Hu Hkq. injection Hq as <-.
       destruct Hcq as [HlM HcM].
       assert (Hzn : znth M' g = Some (nth (Z.to_nat g) M' [])) by (apply cc_znth_nth; lia).
